@@ -805,6 +805,10 @@ class Interp:
             c.assume(z3.Implies(ident, ea == eb))
             c.assume(z3.Implies(z3.And(ea == eb, ea >= -5, ea <= 256), ident))
             return SBool(ident)
+        # NOTE (stated assumption): state functions are compared as objects.  `chart.top` is a bound method, so two
+        # mentions of it are == but not `is`; the core's one identity scan (trans_, topology f) then falls through to
+        # topology g, which compares with == and reaches the same result after one ignored EXIT sent to top.  That path
+        # is not modelled; identity comparisons of handlers in the query functions are ruled out syntactically (C22).
         return SBool(c.to_ref(a) == c.to_ref(b))
 
     def equal(self, a, b):
@@ -910,7 +914,9 @@ class Interp:
                 return SRef(c.hget(obj, '$dict'), 'dict')
             if pt in self.src.classes and pt != 'Attribute':
                 if attr == '__class__':
-                    return SClass(pt)
+                    k = SClass(pt)
+                    k.of_instance = True          # type(self): possibly a subclass of the class the source names
+                    return k
                 mangled = attr
                 fi = self.src.find_method(pt, mangled)
                 if fi is not None:
@@ -973,6 +979,9 @@ class Interp:
         name = cls.name
         if name.startswith('singleton:'):
             name = name.split(':', 1)[1]
+        if getattr(cls, 'of_instance', False) and (name, attr) in getattr(self.w, 'subclass_consts', {}):
+            # a constant that a subclass may override, read through the instance's own class
+            return self.w.subclass_consts[(name, attr)]
         if name in self.src.classes:
             fi = self.src.find_method(name, attr)
             if fi is not None:
